@@ -368,7 +368,7 @@ func concurrentRun(args []string) {
 		for i := 1; i <= 6; i++ {
 			i := i
 			o := ROp{Type: []string{"create", "update", "recover", "deactivate"}[i%4], Wf: "ok", Reveal: "ok", Sig: "ok", Dhash: true, Dv: "ok", Sfx: true,
-				Delta: Delta{"addkey", i}, T: uint64(i), N: uint64(i), Nu: i, Nr: i + 10, Ao: i, Kt: allKTs[i%5], H: 256, Nuv: "norm", Ref: i, Eq: i}
+				Delta: Delta{"addkey", i}, T: uint64(i), N: uint64(i), Nu: i, Nr: i + 10, Ao: []int{100 + i, i}[i%2], Kt: allKTs[i%5], H: 256, Nuv: "norm", Ref: i, Eq: i}
 			op := conc.Build(&o)
 
 			jobs = append(jobs, job{fmt.Sprintf("Parser.Parse#%d", i), func() interface{} {
